@@ -17,6 +17,10 @@ def field_name(rng, used):
         n = rng.randint(1, 3)
         ws = [rng.choice(WORDS) + (str(rng.randint(0, 9)) if rng.random() < 0.15 else '') for _ in range(n)]
         name = '_'.join(ws)
+        # a one-letter last word, also right after a word ending in a digit (vec3_x, ab_y): still a canonical
+        # snake_case name whose camel / pascal spelling leads back to it
+        if rng.random() < 0.12:
+            name += '_' + rng.choice('xywq')
         if name not in used and name.lower() not in {u.lower() for u in used}:
             used.add(name)
             return name
